@@ -62,8 +62,9 @@ def build_all(verif, env, tier="quick"):
 
 # Generator-side explorations repeated on `mc` built with the feature sets that change generator code
 MC_FEATURE_RUNS = {
-    "quick": [("unsafe", ["C01", "C13"]), ("opt-reduce-fnv-table", ["C19", "C01"]), ("unsafe,opt-reduce-fnv-table", ["C13"])],
-    "thorough": [("unsafe", ["C01", "C03", "C12", "C13"]), ("opt-reduce-fnv-table", ["C01", "C03", "C13", "C19"]),
+    "quick": [("unsafe", ["C01", "C13", "C12", "C05", "C07"]), ("opt-reduce-fnv-table", ["C19", "C01"]), ("unsafe,opt-reduce-fnv-table", ["C13", "C12"])],
+    "thorough": [("unsafe", ["C01", "C03", "C12", "C13", "C02", "C04", "C05", "C06", "C07", "C08", "C09", "C10", "C11", "C15", "C16", "C17", "C19", "C20"]),
+                 ("opt-reduce-fnv-table", ["C01", "C03", "C13", "C19"]),
                  ("unsafe,opt-reduce-fnv-table", ["C01", "C03", "C12", "C13", "C19"])],
 }
 
@@ -273,7 +274,7 @@ def run(tier, verif, env):
         "property_id": "C14", "tier": tier, "seed": int(os.environ.get("VERIF_SEED", "0")), "level": "model_checking",
         "coverage": {
             "evaluations": lines_total, "distinct_nontrivial": distinct,
-            "rule": "the enumerated transcript (generator sequences from zero-prefix / reused starts incl. one-slice feeding and all size borders with and without the hint; %d parser texts x 6 types; conversions / normalization / dual round trips / ordering over block-hash families; scores, candidate test and index windows for all 31x31 block-size pairs x 5 templates through three routes; hash primitives) is produced in each of 7 feature sets x 2 debug-assertion settings; every line is a case; non-strict configurations must give byte-identical sections, the strict parser is compared line by line against the documented rule, every configuration also checks itself against the reference model and calls the unchecked twins / easy functions where the configuration has them; in addition the lock-step / explicit-state explorations of C01, C13, C19 (thorough: C03, C12 too) are repeated on `mc` built with the unsafe / opt-reduce-fnv-table / both feature sets; distinct_nontrivial = distinct lines of the default transcript" % (ref[0].get("parser", (0,))[0] // 6),
+            "rule": "the enumerated transcript (generator sequences from zero-prefix / reused starts incl. one-slice feeding and all size borders with and without the hint; %d parser texts x 6 types; conversions / normalization / dual round trips / ordering over block-hash families; scores, candidate test and index windows for all 31x31 block-size pairs x 5 templates through three routes; hash primitives) is produced in each of 7 feature sets x 2 debug-assertion settings; every line is a case; non-strict configurations must give byte-identical sections, the strict parser is compared line by line against the documented rule, every configuration also checks itself against the reference model and calls the unchecked twins / easy functions where the configuration has them; in addition the explorations of other properties are repeated (at their quick tier) on `mc` built with the unsafe / opt-reduce-fnv-table / both feature sets: quick C01 C13 C12 C05 C07 (unsafe), C19 C01 (reduced table), C13 C12 (both); thorough every check C01..C20 except C14 / C18 on the unsafe build and the generator-side checks on the other two (see explorations_on_feature_builds_of_mc); distinct_nontrivial = distinct lines of the default transcript" % (ref[0].get("parser", (0,))[0] // 6),
             "samples": samples, "configurations": len(results), "matrix": matrix,
             "strict_parser_lines_checked_against_rule": strict_checked,
             "explorations_on_feature_builds_of_mc": mc_runs,
